@@ -114,10 +114,10 @@ def macro_invocation(rng):
 
 
 def macro_definition(rng):
-    name = rng.choice(MACRO_NAMES[:5]) + rng.choice(['', '', '?'])
+    name = rng.choice(MACRO_NAMES[:5] + ['--', '--header-ids']) + rng.choice(['', '', '?'])
     k = rng.random()
     if k < 0.6:
-        value = rng.choice([words(rng), inline(rng, 1).replace('\n', ' '), '$1 and $2', '$1:dflt$ $$2', '{m1}', '',
+        value = rng.choice([words(rng), inline(rng, 1).replace('\n', ' '), '$1 and $2', '$1:dflt$ $$2', '{m1}', '', '1', '5',
                             '<b>$1</b>', '{%s|$1 $1}' % name.rstrip('?'), "it's", '\\$1 $0 $10'])
         return "{%s} = '%s'" % (name, value)
     lines = [words(rng) for _ in range(rng.randint(1, 3))]
@@ -129,19 +129,23 @@ def definition_line(rng):
     if k == 0:
         return macro_definition(rng)
     if k == 1:
-        return "%s = '%s'" % (rng.choice(['=', '#', '%%', '^', '~', '$$', '!']),
-                              rng.choice(['<u>|</u>', '<q>||</q>', '<i>|', 'x', '<span class="a">|</span>']))
+        # new quotes, and redefinitions of the default ones (tags, and the spans flag: '|' on, '||' off)
+        return "%s = '%s'" % (rng.choice(['=', '#', '%%', '^', '~', '$$', '!', '_', '*', '`', '**', '``', '__']),
+                              rng.choice(['<u>|</u>', '<q>||</q>', '<i>|', 'x', '<span class="a">|</span>', '<tt>|</tt>', '<i>||</i>',
+                                          '{m1}|</u>', '<u class="{m2}">||</u>']))
     if k == 2:
         return "/%s/%s = '%s'" % (rng.choice(['\\bfoo\\b', 'x+', '(a)|(b)', '(', 'a*', '(.+)', '[a-z]{2}', '\\\\?\\.{3}', 'A', '(?i)q']),
                                   rng.choice(['', 'i', 'g', 'm', 'ig']),
-                                  rng.choice(['bar', '[$1]', '$$1', '<b>$1</b>', '$2$1', '', '&hellip;']))
+                                  rng.choice(['bar', '[$1]', '$$1', '<b>$1</b>', '$2$1', '', '&hellip;', '{m1}', 'v {m2|a|b}', '$a $1', '$$b',
+                                              '$_x', '\\$1', '$']))
     if k == 3:
         return "|%s| = '%s'" % (rng.choice(BLOCK_NAMES),
                                 rng.choice(['<section>|</section>', '<p class="x">|</p> +spans', '-macros', '+skip', 'junk',
-                                            '<div>|</div> -container +spans', '']))
+                                            '<div>|</div> -container +spans', '', '+', '-', '<a>|</a>+skip', '<b title="{m1}">|</b>',
+                                            '+skipx', 'x+skip', '-specials +macros', '<i>|</i>  -spans']))
     if k == 4:
         return ".%s = '%s'" % (rng.choice(['safeMode', 'htmlReplacement', 'reset', 'bogus']),
-                               rng.choice(['0', '1', '5', '15', '16', '-1', 'x', 'true', 'false', '<i>r</i>', '']))
+                               rng.choice(['0', '1', '5', '15', '16', '-1', 'x', 'true', 'false', '<i>r</i>', '', '{m1}', '{m2|1|5}']))
     return '// ' + words(rng)
 
 
